@@ -5057,7 +5057,11 @@ WordAgrees == /\ (\E a \in Threads : held[a] = 1) => (word & WLOCK) # 0
               /\ RF(word) >= RLOCK * Cardinality({a \in Threads : held[a] = 2})
 \* ---- C02 ----
 AllDone == \A u \in Threads : pc[u] = "Done"
-NoStuck == (~ENABLED NextU) => AllDone
+\* a thread may stay asleep for ever only inside nsync_mu_wait on a condition that is false (C06: nobody owes it a wake-up)
+InMuWait(u) == \E i \in 1..Len(stack[u]) : stack[u][i].procedure = "mu_wait"
+LegitAsleep(u) == InMuWait(u) /\ c[u] # 0 /\ ~CondTrue(c[u], data)
+DoneOrLegit == \A u \in Threads : pc[u] = "Done" \/ LegitAsleep(u)
+NoStuck == (~ENABLED NextU) => DoneOrLegit
 \* ---- C04 / C11 : a wait that consumed a wake-up reports it as one ----
 AtClient(u) == pc[u] = "c0"
 PickedReportsWake == \A u \in Threads : (AtClient(u) /\ picked[u] /\ ret[u] # -1) => ret[u] = 0
@@ -5090,7 +5094,7 @@ Obs == [word |-> word', q |-> IF SpinFree THEN queue' ELSE <<>>, cvword |-> cvwo
         mw |-> mw', waiting |-> waiting', rmc |-> rmc', nww |-> nww', sem |-> sem', held |-> held', data |-> data', now |-> now',
         note |-> note', ret |-> ret',
         \* ghost part (not compared with the code): which invariants fail in the successor state, termination, taints
-        bad |-> BadSet', done |-> AllDone', taint3 |-> taint3']
+        bad |-> BadSet', done |-> DoneOrLegit', taint3 |-> taint3']
 Edge == (vars # vars') =>
           PrintT(ToJson(<<"E", TLCFP(vars), TLCFP(<<vars, 1>>), TLCFP(vars'), TLCFP(<<vars', 1>>),
                           Actor, IF Actor = 0 THEN "Tick" ELSE pc[Actor], Obs>>))
